@@ -24,7 +24,7 @@ RULE = ('(a) product automaton of all resolver regexes (live Loader instance) x 
         'scalar that either side types as bool or float')
 ASSUMPTIONS = [
     'the regex->DFA translation is validated against re.match on every string enumerated in (b)',
-    'the reference languages are the YAML 1.2 core-schema productions; a sign on .nan is accepted either way',
+    'the reference languages are the YAML 1.2 core-schema productions (a sign is allowed on numbers and .inf, not on .nan)',
     'strings ending in a line feed are not plain scalars (the scanner strips trailing white space) and are ignored',
     'strings outside the two alphabets are covered only by (a)',
 ]
@@ -44,7 +44,9 @@ def BOUNDS(tier):
 REF_FLOAT = re.compile(r'(?:[-+]?(?:\.[0-9]+|[0-9]+(?:\.[0-9]*)?)(?:[eE][-+]?[0-9]+)?|[-+]?\.(?:inf|Inf|INF)|\.(?:nan|NaN|NAN))\Z')
 REF_INTLIKE = re.compile(r'[-+]?[0-9]+\Z')
 REF_BOOL = re.compile(r'(?:true|True|TRUE|false|False|FALSE)\Z')
-DONTCARE = re.compile(r'[-+]\.(?:nan|NaN|NAN)\Z')
+# nothing is left to discretion: YAML 1.2 allows a sign on numbers and on .inf, not on .nan, so '-.nan' is a string
+# (an earlier version accepted either typing for a signed .nan)
+DONTCARE = re.compile(u'[^\x00-\U0010FFFF]\\Z')
 NOTPLAIN = re.compile(r'[\x00-\U0010ffff]*\n\Z')
 
 
